@@ -248,6 +248,7 @@ type mlistener struct {
 	connsAny []net.Conn
 	errs     []error
 	closes   int
+	waiters  int // Accept calls parked waiting for something to arrive
 }
 
 func newMListener() *mlistener { l := &mlistener{}; l.cond = sync.NewCond(&l.mu); return l }
@@ -268,7 +269,9 @@ func (l *mlistener) Accept() (net.Conn, error) {
 			l.connsAny = l.connsAny[1:]
 			return c, nil
 		}
+		l.waiters++
 		l.cond.Wait()
+		l.waiters--
 	}
 }
 func (l *mlistener) Close() error {
@@ -381,7 +384,16 @@ func famServeModel(o *corr.Out, n int) {
 				conns[c].a.Break()
 			}
 			if op == "accepterr:temp" {
-				time.Sleep(650 * time.Millisecond) // Serve sleeps 500ms after a temporary error
+				// Serve sleeps 500ms after a temporary error: wait until it is back in Accept (or gone)
+				for dl := time.Now().Add(20 * time.Second); time.Now().Before(dl); {
+					time.Sleep(50 * time.Millisecond)
+					lis.mu.Lock()
+					back := (lis.waiters > 0 && len(lis.errs) == 0) || lis.closes > 0
+					lis.mu.Unlock()
+					if _, done := d.Result("serve"); back || done {
+						break
+					}
+				}
 			}
 			d.Settle()
 			res, done := d.Result("serve")
